@@ -49,7 +49,7 @@ def run_case(kind, case):
 
             rules = [SigmaRule.from_dict(rule_dict(r, i + 1)) for i, r in enumerate(case["coll"])]
             issues = SigmaValidator(list(VALIDATORS.values())).validate_rules(iter(rules))
-            return [type(i).__name__ + ":" + ",".join(r.description for r in i.rules) + ":" + str({k: v for k, v in vars(i).items() if k != "rules"}) for i in issues]
+            return [type(i).__name__ + ":" + ",".join("R" + str(r.custom_attributes["verif_idx"]) for r in i.rules) + ":" + str({k: v for k, v in vars(i).items() if k != "rules"}) for i in issues]
         elif kind == "c13":
             from .props.c13 import pipeline_dict, RULE
             from sigma.processing.pipeline import ProcessingPipeline
